@@ -25,7 +25,7 @@ func Trace(js string) error {
 	if len(sc.DP) == 0 {
 		w.sc.DP = []int{0, 1, 2, 3, 4}
 	}
-	res, rerr, pan := w.reconcile(sc.Faults)
+	res, rerr, pan := w.reconcile(sc.Faults, sc.Env)
 	for i, c := range w.log {
 		fmt.Printf("%3d %-5s %-40s %s  node=%q\n", i, c.Outcome, c.Term, c.Human, w.nodeHist[i])
 	}
@@ -39,7 +39,9 @@ func (w *world) dump() {
 	ctx := context.Background()
 	pods := &v1.PodList{}
 	_ = w.base.List(ctx, pods)
-	sort.Slice(pods.Items, func(i, j int) bool { return pods.Items[i].Namespace+pods.Items[i].Name < pods.Items[j].Namespace+pods.Items[j].Name })
+	sort.Slice(pods.Items, func(i, j int) bool {
+		return pods.Items[i].Namespace+pods.Items[i].Name < pods.Items[j].Namespace+pods.Items[j].Name
+	})
 	for _, p := range pods.Items {
 		fmt.Printf("pod %s/%s node=%q phase=%s labels=%v ann=%v cond=%v\n", p.Namespace, p.Name, p.Spec.NodeName, p.Status.Phase, p.Labels, p.Annotations, p.Status.Conditions)
 	}
